@@ -13,7 +13,7 @@ NOT_APPLICABLE = {}
 CHECKS["C04"] = {
     "level": "exploration",
     "technique": "exhaustive length enumeration + rapid property test; differential against an independent reference codec (round trip, cross decode, byte-for-byte)",
-    "level_text": "Every legal payload length under every method/placement/seq-class is encoded and checked against an independent implementation of the Cloak v2 layout, plus random frames; this decides round-trip, size limit and wire compatibility for the whole length domain and samples the 2^104 header/key space.",
+    "level_text": "Every legal payload length under every method/placement/seq-class is encoded and checked against an independent implementation of the Cloak v2 layout, plus random frames; in both directions (this build's messages under the reference decoder; the reference encoding - with this build's padding and with padding lengths 0, 1, 7, 100 and 255-tag of its own on any sequence number - under this build's decoder); this decides round-trip, size limit and wire compatibility for the whole length domain and samples the 2^104 header/key space.",
     "level_note": "Trusts /verif/kit/refcodec.go as the layout definition and the Go crypto primitives; header/key values are sampled, not enumerated.",
     "exhaustive_claim": True,
     "rule": "Lengths: every payload length 1..max x 4 methods x {in-place, separate buffer} x {seq<5 (random padding), seq>=5} enumerated; "
@@ -63,7 +63,7 @@ CHECKS["C01"] = {
 CHECKS["C03"] = {
     "level": "exploration",
     "technique": "rapid-generated write/deliver/read/close sequences on a real Session pair over a test-owned network (synctest bubble); per-stream prefix/equality model derived from the wire tap",
-    "level_text": "Generated scripts of writes, per-connection deliveries and closes by either or both sides; whether the closing notice overtakes data on another connection is a generated value; 40 % of the multi-connection scripts contain the adaptive 'raceclose' delivery: a one-byte frame, a run of 4-24 full frames and the close are written, everything except the first frame and the closing notice is delivered (the run parks in the reorder buffer), then the gap filler's connection and the closing notice are delivered in the same step, so one connection's goroutine flushes the backlog while another processes the close. After every step and after the final drain the readers' bytes/errors are compared with a model computed from the tap (what had been handed over, whether the peer's close is next in line).",
+    "level_text": "Generated scripts of writes, per-connection deliveries and closes by either or both sides; whether the closing notice overtakes data on another connection is a generated value; 2.5 % of the scripts leave 1-5 MB unread on a stream before its receiving side closes it; 40 % of the multi-connection scripts contain the adaptive 'raceclose' delivery: a one-byte frame, a run of 4-24 full frames and the close are written, everything except the first frame and the closing notice is delivered (the run parks in the reorder buffer), then the gap filler's connection and the closing notice are delivered in the same step, so one connection's goroutine flushes the backlog while another processes the close. After every step and after the final drain the readers' bytes/errors are compared with a model computed from the tap (what had been handed over, whether the peer's close is next in line).",
     "level_note": "Same trusted base as C01; a side's Close is issued only after its own writes returned (the statement is about bytes written before the close).",
     "rule": "rapid draws config (method, 1..8 conns or singleplex) and <=60 ops over 1..3 streams with a designated closer (client, server or both) per stream; non-trivial = the stream-closing frame was delivered while a lower-numbered data frame of that stream was still undelivered on another connection; distinct = distinct scenarios.",
     "assumptions": ["only the client opens streams", "network delivers bytes exactly once, in order per connection"],
@@ -194,7 +194,7 @@ CHECKS["C05"] = {
 CHECKS["C06"] = {
     "level": "exploration",
     "technique": "rapid-generated client configurations; one real handshake per case (client Transport.Handshake <-> server dispatchConnection, direct and through a TLS-terminating CDN shim) in a synctest bubble; oracle = independent re-authentication of the tapped first packet + key equality",
-    "level_text": "For each generated (UID, proxy method 1..12 bytes, encryption method, session id incl. 0/2^31/2^32-1, ordered/unordered, browser signature, transport, server name incl. 'random', client clock offset inside the window) the client's returned key must equal the key of the session the server filed under exactly that UID and session id, and an independent server state must recover exactly the configured identity fields from the tapped first packet. 0-6 other clients (own UIDs and session ids) handshake in the same step and the identities recovered from all tapped first packets must equal the configured ones as a multiset, each client's session being filed under its own UID. A case opens 1, 2, 3 or 6 connections of the same session at the same time (bypass user, or database user whose authorisation query yields the processor until a second caller is inside): all must be given one key, the server must keep one session.",
+    "level_text": "For each generated (UID, proxy method 1..12 bytes, encryption method, session id incl. 0/2^31/2^32-1, ordered/unordered, browser signature, transport, server name incl. 'random', client clock offset inside the window) the client's returned key must equal the key of the session the server filed under exactly that UID and session id, and an independent server state must recover exactly the configured identity fields from the tapped first packet. What reaches the server arrives in one piece or in two segments (tail of 1-7 bytes); server names include mixed-case spellings of 'random'. 0-6 other clients (own UIDs and session ids) handshake in the same step and the identities recovered from all tapped first packets must equal the configured ones as a multiset, each client's session being filed under its own UID. A case opens 1, 2, 3 or 6 connections of the same session at the same time (bypass user, or database user whose authorisation query yields the processor until a second caller is inside): all must be given one key, the server must keep one session.",
     "level_note": "Clock offsets are generated with |offset| <= 178.999 s so that the truncation of the timestamp to whole seconds never reaches the window edge (edges belong to C07). The CDN is emulated by a crypto/tls terminator with a self-signed certificate.",
     "rule": "rapid draws the configuration tuple; every case is a full handshake (non-trivial); distinct = distinct (browser, transport, enc, flag, sid class, name class, method length) tuples.",
     "assumptions": ["utls builds ClientHellos as the real client does", "crypto/tls and gorilla/websocket are correct"],
@@ -234,7 +234,7 @@ CHECKS["C07"] = {
     "level": "exploration",
     "exhaustive_claim": True,
     "technique": "exhaustive single-bit flips of four genuine first packets (three browser ClientHellos + WebSocket GET) and rapid-generated multi-byte edits/truncations/extensions against AuthFirstPacket on a fresh replay cache (oracle: accept => identity fields, sealed block and ephemeral key equal the genuine ones, checked with an independent parser); exhaustive clock-offset sweep around both window edges; rapid-generated dispatch outcomes (user class x proxy method x key x transport x clock) and admin-gate cases on a real bolt-backed server in a synctest bubble",
-    "level_text": "Decides 'accept implies intact and timely' over every bit of real first packets, the strict two-sided 180 s window at 1 s resolution plus sub-second edges, and the observable outcome of dispatchConnection (handshake reply vs. relay to the redirect target) for bypass/admin/database users with good, exhausted, expired, deleted or unknown records, unknown proxy methods, wrong server key and both transports; the admin API must answer only for admin UID with session id 0. Which UIDs a configuration admits is decided with states built by InitState from generated configurations (admin UID absent/present/all-zero, 0-3 bypass UIDs, user database or none) and genuine first packets for probe UIDs (all-zero, all-0xFF, configured ones, one-bit neighbours, database user, unknown) through dispatchConnection. 168 first packets forged without the server's public key (small-order / non-canonical ephemeral keys 0, 1, order-8 points, p-1, p, p+1, with and without bit 255; identity block sealed under the secret a permissive X25519 would yield; TLS and WebSocket carriers) must all be rejected; genuine packets with extreme client clocks (2^31 .. 2^62, unit confusions, +-293 years) are decided with integer arithmetic.",
+    "level_text": "Decides 'accept implies intact and timely' over every bit of real first packets, the strict two-sided 180 s window at 1 s resolution plus sub-second edges, and the observable outcome of dispatchConnection (handshake reply vs. relay to the redirect target) for bypass/admin/database users with good, exhausted, expired, deleted or unknown records, unknown proxy methods, wrong server key and both transports; the admin API must answer only for admin UID with session id 0. A third of the probes arrive when the user's session with that id already exists (joining is subject to the same conditions). Which UIDs a configuration admits is decided with states built by InitState from generated configurations (admin UID absent/present/all-zero, 0-3 bypass UIDs, user database or none) and genuine first packets for probe UIDs (all-zero, all-0xFF, configured ones, one-bit neighbours, database user, unknown) through dispatchConnection. 168 first packets forged without the server's public key (small-order / non-canonical ephemeral keys 0, 1, order-8 points, p-1, p, p+1, with and without bit 255; identity block sealed under the secret a permissive X25519 would yield; TLS and WebSocket carriers) must all be rejected; genuine packets with extreme client clocks (2^31 .. 2^62, unit confusions, +-293 years) are decided with integer arithmetic.",
     "level_note": "Flips outside the authenticated fields (server name, cipher list, ...) may legitimately still authenticate, so 'every flip is rejected' is deliberately not asserted. Keys and nonces are sampled.",
     "rule": "Flips: every bit of every byte of 4 base packets; distinct non-trivial = byte positions. Edits: rapid-drawn xor masks at <=8 positions, truncate/extend by 1..300, sealed-block swap between packets; non-trivial = the mutant still parses as a first packet. Window: offsets -185..185 s step 1 s and edge+-{0,1,500,999 ms} x server sub-second {0,1 ns,0.5 s,0.999999999 s}, both transports; non-trivial = within 2 s of an edge. Outcome/AdminGate: rapid-drawn tuples; distinct = distinct tuples.",
     "assumptions": ["tlsref.go parses ClientHellos correctly", "AES-GCM and X25519 are correct"],
